@@ -121,6 +121,15 @@ def search(ctx):
         es, scan = ebisim.eixs_energyscan(el, arr, 7)
         if not np.array_equal(es, arr) or not all(np.array_equal(scan[:, c], ebisim.eixs_vec(el, float(arr[c]))) for c in range(arr.size)):
             add("callers_array", f"eixs_energyscan(Z={z}) does not return the caller's 5-entry array with the vector form per column", {"Z": z})
+        if el.dr_e_res.size:
+            # every column of a DR scan is the vector form at that energy, also far outside the resonance band
+            sg = w / 2.35482
+            lo_, hi_ = float(el.dr_e_res.min()), float(el.dr_e_res.max())
+            arr = np.array([max(lo_ - 30 * sg, 1e-3), max(lo_ - 12 * sg, 2e-3), lo_, 0.5 * (lo_ + hi_), hi_, hi_ + 12 * sg, hi_ + 30 * sg])
+            es, scan = ebisim.drxs_energyscan(el, w, arr, 7)
+            bad = [c for c in range(arr.size) if not np.array_equal(scan[:, c], ebisim.drxs_vec(el, float(arr[c]), w))]
+            if not np.array_equal(es, arr) or bad:
+                add("dr_scan_columns", f"drxs_energyscan(Z={z}, fwhm={w}) column(s) {bad} differ from drxs_vec at the sampled energies {arr[bad].tolist() if bad else ''}", {"Z": z, "w": w, "e": arr.tolist()})
         if el.dr_e_res.size and el.dr_e_res.min() - 3 * w > 0:
             es, scan = ebisim.drxs_energyscan(el, w, None, 30)
             if not (abs(es[0] - (el.dr_e_res.min() - 3 * w)) < 1e-9 * es[0] and abs(es[-1] - (el.dr_e_res.max() + 3 * w)) < 1e-9 * es[-1]):
